@@ -183,7 +183,7 @@ func c09ProjBuilders(ctx *verifapi.LanguageContext) []any {
 	for _, b := range ctx.Builders {
 		jb := J{"name": b.Name, "pkg": b.Package, "object": b.For.Name,
 			"disjunction": b.For.Type.IsStructGeneratedFromDisjunction(),
-			"veneers": projStrings(b.VeneerTrail)}
+			"veneers":     projStrings(b.VeneerTrail)}
 		asgs := []any{}
 		for _, a := range b.Constructor.Assignments {
 			asgs = append(asgs, projAssignment(ctx, a))
